@@ -278,6 +278,9 @@ func (i *interpreter) runPath(fn *ssa.Function, prefix []decision) (res *PathRes
 			}
 		} else {
 			res.End = "done"
+			if p.knownHit {
+				res.End = "known"
+			}
 		}
 		res.Decisions = len(p.decs)
 		res.Steps = p.steps
